@@ -56,20 +56,14 @@ theorem C02_saturated_branch_model_partial (L : LogicData) (W : Weights)
   Canon.hintikka W.node (measureOK_of_weights hW) hcore (by simpa using hT) (by simpa using hF)
     (by simpa [LogicData.saturatedB] using hsat) hg
 
-/-- The countermodel: on every tableau reachable from the trunk by any legal derivation, a
-    saturated ground branch makes its canonical structure a countermodel of the argument. -/
-theorem C02_countermodel_partial (L : LogicData) (W : Weights)
-    (hcore : L.hintikkaCoreB = true) (hW : L.measureOKOnB RuleKey.notQuant W = true)
-    (hT : L.T.vals.contains .T = true) (hF : L.T.vals.contains .F = true) (htb : L.trunkBackB = true)
-    (arg : Argument) (t : Tableau) (hd : Deriv L (trunk L arg) t)
-    (b : Branch) (hb : b ∈ t) (hsat : L.saturatedB b = true) (hg : b.groundB L = true) :
-    (Canon.struct L b).Interp L ∧ Countermodel L (Canon.struct L b) Canon.env (0 : Nat) arg := by
-  obtain ⟨hM, hall⟩ := C02_saturated_branch_model_partial L W hcore hW hT hF b hsat hg
-  refine ⟨hM, ?_⟩
+/-- a branch of a reachable tableau all of whose nodes are satisfied by an interpretation (at the
+    identity labelling, world 0) makes it a countermodel: the trunk nodes are still on the branch -/
+theorem countermodel_of_branch_sat (L : LogicData) (hTot : L.tablesTotalB = true) (htb : L.trunkBackB = true)
+    (arg : Argument) (t : Tableau) (hd : Deriv L (trunk L arg) t) (b : Branch) (hb : b ∈ t)
+    (hM : (Canon.struct L b).Interp L)
+    (hall : ∀ n ∈ b.nodes, satNode L (Canon.struct L b) Canon.env id n) :
+    Countermodel L (Canon.struct L b) Canon.env (0 : Nat) arg := by
   have htn := deriv_trunk_nodes (L := L) (L' := L) hd b hb
-  have hTot : L.tablesTotalB = true := by
-    simp only [LogicData.hintikkaCoreB, Bool.and_eq_true] at hcore
-    exact hcore.1.1.1.1.1.1.1.1.1
   simp only [LogicData.trunkBackB, Bool.and_eq_true, bne_iff_ne, ne_eq] at htb
   obtain ⟨hprem, hconc⟩ := htb
   have hw0 : ∀ wv : Option Nat, wv = (if L.modal then some 0 else none) → wv.getD 0 = 0 := by
@@ -99,6 +93,49 @@ theorem C02_countermodel_partial (L : LogicData) (W : Weights)
     · simp only [hneg, Bool.false_eq_true, ↓reduceIte, beq_iff_eq] at hconc this
       rw [hconc] at this
       simpa [LogicData.satV] using this
+
+theorem tablesTotal_of_core {L : LogicData} (hcore : L.hintikkaCoreB = true) : L.tablesTotalB = true := by
+  simp only [LogicData.hintikkaCoreB, Bool.and_eq_true] at hcore
+  exact hcore.1.1.1.1.1.1.1.1.1
+
+/-- The countermodel: on every tableau reachable from the trunk by any legal derivation, a
+    saturated ground branch makes its canonical structure a countermodel of the argument. -/
+theorem C02_countermodel_partial (L : LogicData) (W : Weights)
+    (hcore : L.hintikkaCoreB = true) (hW : L.measureOKOnB RuleKey.notQuant W = true)
+    (hT : L.T.vals.contains .T = true) (hF : L.T.vals.contains .F = true) (htb : L.trunkBackB = true)
+    (arg : Argument) (t : Tableau) (hd : Deriv L (trunk L arg) t)
+    (b : Branch) (hb : b ∈ t) (hsat : L.saturatedB b = true) (hg : b.groundB L = true) :
+    (Canon.struct L b).Interp L ∧ Countermodel L (Canon.struct L b) Canon.env (0 : Nat) arg := by
+  obtain ⟨hM, hall⟩ := C02_saturated_branch_model_partial L W hcore hW hT hF b hsat hg
+  exact ⟨hM, countermodel_of_branch_sat L (tablesTotal_of_core hcore) htb arg t hd b hb hM hall⟩
+
+/-! ### first-order branches (quantifier rules; weights for every row of the table) -/
+
+theorem measureOK_all_of_weights {L : LogicData} {W : Weights} (h : L.measureOKB W = true) :
+    Canon.MeasureOKOn L W.node (fun _ => True) := by
+  intro s d r whole l0 hrf _ w c wo gs hgs g hgm s' d' w' hn
+  exact weight_decreases h hrf w c wo hgs hgm hn
+
+/-- Hintikka, first-order: a saturated branch of closed first-order sentences (`foB`: quantifier,
+    operator, modal vocabulary; no Identity / Existence) is satisfied node by node by its canonical
+    structure — domain = the constant names, every name off the branch behaving like one on it. -/
+theorem C02_saturated_branch_model_fo_partial (L : LogicData) (W : Weights)
+    (hcore : L.hintikkaCoreB = true) (hW : L.measureOKB W = true)
+    (hT : L.T.vals.contains .T = true) (hF : L.T.vals.contains .F = true)
+    (b : Branch) (hsat : L.saturatedB b = true) (hg : b.foB L = true) :
+    (Canon.struct L b).Interp L ∧
+    ∀ n ∈ b.nodes, satNode L (Canon.struct L b) Canon.env id n :=
+  Canon.hintikka_fo W.node (measureOK_all_of_weights hW) hcore (by simpa using hT) (by simpa using hF)
+    (by simpa [LogicData.saturatedB] using hsat) hg
+
+theorem C02_countermodel_fo_partial (L : LogicData) (W : Weights)
+    (hcore : L.hintikkaCoreB = true) (hW : L.measureOKB W = true)
+    (hT : L.T.vals.contains .T = true) (hF : L.T.vals.contains .F = true) (htb : L.trunkBackB = true)
+    (arg : Argument) (t : Tableau) (hd : Deriv L (trunk L arg) t)
+    (b : Branch) (hb : b ∈ t) (hsat : L.saturatedB b = true) (hg : b.foB L = true) :
+    (Canon.struct L b).Interp L ∧ Countermodel L (Canon.struct L b) Canon.env (0 : Nat) arg := by
+  obtain ⟨hM, hall⟩ := C02_saturated_branch_model_fo_partial L W hcore hW hT hF b hsat hg
+  exact ⟨hM, countermodel_of_branch_sat L (tablesTotal_of_core hcore) htb arg t hd b hb hM hall⟩
 
 /-- non-vacuity: for a logic without rules a branch carrying one sentence letter is saturated and ground -/
 example : (default : LogicData).saturatedB { nodes := [.sent (.atom 0 0) none none] } = true ∧
